@@ -13,6 +13,12 @@ import vlib
 
 OPENSSL = '/root/miniconda/bin/openssl'
 REQ = ['Base.Show', 'Spec.TlsSpec', 'Gen.TlsVersions', 'Gen.TlsModes', 'Model.Tls']
+# the Spec alone (no generated table, no model): still evaluable when the translator rejects a TLS table or the
+# model no longer compiles, so that the live grid can name a concrete failing cell
+REQ_SPEC = ['Base.Show', 'Spec.TlsSpec']
+CASE_T_SPEC = 'endpoint * peer'
+FN_SPEC = ('fun c : endpoint * peer => let \'(ep, p) := c in match expected ep p with Refused => "REFUSED" | Established v role => '
+           '"OK:" ++ (match v with TLS12 => "TLSv1.2" | TLS13 => "TLSv1.3" end) ++ ":" ++ (match role with Some x => x | None => "-" end) end')
 REPO_CERTS = os.path.join(vlib.REPO, 'certs')
 OWN = os.path.join(vlib.ROOT, 'certs')
 
@@ -35,7 +41,8 @@ def _init_certs():
                                ('server_expired', 'expired', 'test.com', []), ('server_notyet', 'notyet', 'test.com', []),
                                ('client', 'ok', None, ['operator']), ('client_expired', 'expired', None, ['operator']),
                                ('client_notyet', 'notyet', None, ['operator']), ('client_otherrole', 'ok', None, ['viewer']),
-                               ('client_roleless', 'ok', 'client.example', []), ('client_tworoles', 'ok', None, ['operator', 'engineer'])]:
+                               ('client_roleless', 'ok', 'client.example', []), ('client_tworoles', 'ok', None, ['operator', 'engineer']),
+                               ('client_mixedrole', 'ok', None, ['Plant-Operator.v2'])]:
         _reg(f'ca2/{n}', f'{o}/ca2/{n}_cert.pem', f'{o}/ca2/{n}_key.pem', 'ca2', val, san, roles)
     # name handling (SAN-or-CN) and an intermediate authority
     _reg('ca2/server_cnonly', f'{o}/ca2/server_cnonly_cert.pem', f'{o}/ca2/server_cnonly_key.pem', 'ca2', 'ok', None, [], cn='test.com')
@@ -115,7 +122,7 @@ def harness_line(c):
     return ' '.join(t)
 
 
-def to_coq(c):
+def to_coq(c, spec_only=False):
     g = truth(c)
     b = vlib.coq_bool
     exts = 'Some [OtherExtension 0' + ''.join(f'; ModbusRole "{r}"' for r in g['roles']) + ']' if c['presented'] else 'None'
@@ -127,6 +134,8 @@ def to_coq(c):
     mode = 'AuthorityBased' if c['mode'] == 'ca' else 'SelfSigned'
     ep = (f'{{| e_side := {side}; e_min := {"TLS12" if c["min"] == "12" else "TLS13"}; e_mode := {"ModeAuthority" if c["mode"] == "ca" else "ModeSelfSigned"}; '
           f'e_authz := {b(c["authz"])}; e_expects_name := {b(bool(c["name"]))} |}}')
+    if spec_only:
+        return f'({ep}, {peer})'
     return f'(({side}, {mn}, {mode}, {b(c["authz"])}, {b(bool(c["name"]))}), {ep}, {peer})'
 
 
@@ -146,7 +155,7 @@ def grid(full):
         ('wrong-authority', 'repoCA', 'repo/server', 'ca2/client'), ('wrong-authority2', 'ca2', 'ca2/server', 'repo/client'),
         ('expired', 'ca2', 'ca2/server', 'ca2/client_expired'), ('not-yet-valid', 'ca2', 'ca2/server', 'ca2/client_notyet'),
         ('role-less', 'ca2', 'ca2/server', 'ca2/client_roleless'), ('other-role', 'ca2', 'ca2/server', 'ca2/client_otherrole'),
-        ('two-roles', 'ca2', 'ca2/server', 'ca2/client_tworoles'),
+        ('two-roles', 'ca2', 'ca2/server', 'ca2/client_tworoles'), ('mixed-case-role', 'ca2', 'ca2/server', 'ca2/client_mixedrole'),
         ('via-intermediate', 'ca2', 'ca2/server', 'ca2/client_viaint+chain'), ('missing-intermediate', 'ca2', 'ca2/server', 'ca2/client_viaint'),
     ]
     server_ss = [  # (label, configured peer cert, local, presented)
@@ -178,6 +187,8 @@ def grid(full):
         ('expired', 'test.com', 'ca2', 'ca2/client', 'ca2/server_expired'), ('not-yet-valid', 'test.com', 'ca2', 'ca2/client', 'ca2/server_notyet'),
         ('name-in-cn-no-san', 'test.com', 'ca2', 'ca2/client', 'ca2/server_cnonly'), ('name-in-cn-but-other-san', 'test.com', 'ca2', 'ca2/client', 'ca2/server_sanother_cntest'),
         ('via-intermediate', 'test.com', 'ca2', 'ca2/client', 'ca2/server_viaint+chain'), ('missing-intermediate', 'test.com', 'ca2', 'ca2/client', 'ca2/server_viaint'),
+        # the expected server name given as an IP literal: the certificate (DNS:test.com only) is not valid for it
+        ('ip-literal-name-expected', '127.0.0.1', 'ca2', 'ca2/client', 'ca2/server'), ('ip-literal-name-expected', '127.0.0.1', 'repoCA', 'repo/client', 'repo/server'),
     ]
     client_ss = [  # (label, configured peer cert, local, presented)
         ('valid', 'repo/entity2', 'repo/entity1', 'repo/entity2'), ('valid2', 'ss/server', 'ss/client', 'ss/server'),
@@ -254,11 +265,12 @@ def run(ctx):
     _init_certs()
     _init_cas()
     ctx.translate(['TlsVersions.v', 'TlsModes.v'])
-    models_ok = ctx.build_models(REQ)
+    spec_ok = ctx.build_models(REQ_SPEC)
+    models_ok = spec_ok and ctx.build_models(REQ)
     ctx.prove()
     if ctx.tier == 'thorough':
         ctx.coqchk()
-    if not ctx.build_harness() or not models_ok:
+    if not ctx.build_harness() or not spec_ok:
         return
     have_openssl = os.path.exists(OPENSSL)
     missing = [v['cert'] for v in CERTS.values() if not os.path.exists(v['cert']) or not os.path.exists(v['key'])]
@@ -278,7 +290,14 @@ def run(ctx):
             ctx.rng.shuffle(g)
             cells += g
     impl = ctx.harness('tls', [harness_line(c) for c in cells], args=[OPENSSL], shards=4, timeout=900)
-    both = ctx.coq_eval(REQ, FN, [to_coq(c) for c in cells], case_type=CASE_T, preamble='Local Open Scope string_scope.', per_shard=60)
+    if models_ok:
+        both = ctx.coq_eval(REQ, FN, [to_coq(c) for c in cells], case_type=CASE_T, preamble='Local Open Scope string_scope.', per_shard=60)
+    else:
+        # the tie to the tables / the model is lost (reported as such): judge the live grid against the Spec alone
+        spec_only = ctx.coq_eval(REQ_SPEC, FN_SPEC, [to_coq(c, spec_only=True) for c in cells], case_type=CASE_T_SPEC,
+                                 preamble='Local Open Scope string_scope.', per_shard=60)
+        both = [f'{x}#{x}' for x in spec_only]
+        ctx.coverage['model_unavailable_judged_against_spec_only'] = True
     # a failing cell is repeated once on its own (process start-up races of the external peer), outcome only
     suspects = [k for k, (c, i, b) in enumerate(zip(cells, impl, both)) if judge(c, i, b.split('#')[1]) or judge(c, i, b.split('#')[0])]
     repeated_detail = [[cells[k]['side'], cells[k]['label'], cells[k]['peer'], cells[k]['offer'], impl[k], both[k].split('#')[1]] for k in suspects[:8]]
@@ -324,7 +343,7 @@ def run(ctx):
     if not ctx.replay:
         need = ['side:server', 'side:client', 'side:ffiserver', 'side:fficlient', 'min:12', 'min:13', 'mode:ca', 'mode:ss', 'peer:openssl', 'peer:rodbus', 'peer:plain', 'offer:12', 'offer:13',
                 'offer:both', 'cert:valid', 'cert:wrong-authority', 'cert:wrong-name', 'cert:expired', 'cert:not-yet-valid', 'cert:role-less', 'cert:other-role', 'cert:two-roles', 'cert:via-intermediate', 'cert:missing-intermediate', 'cert:name-in-cn-no-san',
-                'cert:name-in-cn-but-other-san',
+                'cert:name-in-cn-but-other-san', 'cert:ip-literal-name-expected',
                 'expected:OK', 'expected:REFUSED']
         ctx.oblige('grid-reaches-expected-classes', all(classes.get(k, 0) >= 1 for k in need), str({k: classes.get(k, 0) for k in need}))
     ctx.coverage.update({
